@@ -343,7 +343,7 @@ func signCases(r *mc.Run) {
 					}
 					r.Nontrivial(id)
 				} else if ov.ok && intact {
-					r.Violation("sign/genuine-response-refused", id, "an intact response was refused: "+err.Error(), nil)
+					r.Outcome("sign:intact-response-refused") // "returns a signature only if ...": a refusal is always allowed
 				}
 				r.Outcome(map[bool]string{true: "sign:returned", false: "sign:refused"}[err == nil])
 				if r.State("sign|" + strings.SplitN(v.name, "bit", 2)[0] + "|" + ov.name + fmt.Sprint(err == nil)) {
@@ -440,8 +440,12 @@ func runScenario(r *mc.Run, sc scenario, pageSize, bound int, pageChoices, failu
 					}
 				}
 				r.Nontrivial(id)
-			} else if !injected && len(sc.rings["root"]) > 0 {
-				viol("fails-without-fault", "bootstrap fails although the service answered every call: "+err.Error())
+			} else if !injected && hasEnabled {
+				// "bootstrap selects an enabled version": with one present and every call answered, giving
+				// up means the version was not accounted for
+				viol("enabled-version-overlooked", "an ENABLED version exists and the service answered every call, but bootstrap fails: "+err.Error())
+			} else if !injected {
+				r.Outcome("bootstrap:refused-without-fault")
 			}
 		case "rotate":
 			if err == nil {
@@ -451,20 +455,21 @@ func runScenario(r *mc.Run, sc scenario, pageSize, bound int, pageChoices, failu
 				}
 				r.Nontrivial(id)
 			} else if !injected {
-				viol("fails-without-fault", "rotation fails although the service answered every call: "+err.Error())
+				r.Outcome("rotate:refused-without-fault") // "rotation returns only an enabled version": a refusal is allowed
 			}
 		case "wipeout":
-			if err == nil {
+			// "wipeout leaves no enabled or disabled version behind": judged whenever the service answered
+			// every call, whatever wipeout reports; after an injected service error only when wipeout
+			// nevertheless reports success.
+			if err == nil || !injected {
 				for k, vs := range m.keys {
 					for _, v := range vs {
 						if v.state == kmspb.CryptoKeyVersion_ENABLED || v.state == kmspb.CryptoKeyVersion_DISABLED {
-							viol("usable-version-left-behind", fmt.Sprintf("wipeout reported success but %s of %s is still %v", v.name[strings.LastIndex(v.name, "/")+1:], k[strings.LastIndex(k, "/")+1:], v.state))
+							viol("usable-version-left-behind", fmt.Sprintf("after wipeout (error: %v) %s of %s is still %v", err, v.name[strings.LastIndex(v.name, "/")+1:], k[strings.LastIndex(k, "/")+1:], v.state))
 						}
 					}
 				}
 				r.Nontrivial(id)
-			} else if !injected {
-				viol("fails-without-fault", "wipeout fails although the service answered every call: "+err.Error())
 			}
 		}
 		sig := fmt.Sprintf("%s|%s|ps=%d|err=%v|calls=%d", sc.op, sc.name, pageSize, err != nil, m.calls)
